@@ -1,7 +1,8 @@
 \* C02 behaviour generation (transition coverage): `hist` (environment steps and the Read / Write
 \* gates of the two copiers) is kept outside the VIEW, so TLC reaches every distinct state of the
 \* bridge model once, by a shortest script, and prints one behaviour per (state, step) pair.
-\* With -simulate the same configuration yields random deep scripts.
+\* With -simulate the same configuration yields random deep scripts.  Lims = {"slow"} (1 KiB/s) is
+\* generated on its own: only its "an end goes away during the pacing of a chunk" scripts are driven.
 CONSTANTS
   BUF = 3
   MaxSends = @@MAXS@@
